@@ -27,12 +27,13 @@ REPORTERS = ["TestResult", "TextTestResult", "TestByTestResult", "MultiTestResul
              "Tagger", "TestResultDecorator", "ETOD-ext", "ETOD-py27", "ETSD-S2E", "ETOD-TestResult", "Tagger-TSFR",
              "doubles-Extended", "ETOD-py26", "ETOD-twisted", "ETOD-doubles"]
 
-HIST = H.s_history(max_tests=4, with_time=False, with_startless=True, with_placeholder=True, max_ops=24)
+HIST = H.s_history(max_tests=4, with_time=False, with_startless=True, with_placeholder=True, max_ops=24, loose_runs=True)
 
 
 @st.composite
 def s_case(draw):
     return {"reporter": draw(st.sampled_from(REPORTERS)), "history": draw(HIST), "scratch_tags": draw(st.booleans()),
+            "tags_by_keyword": draw(st.booleans()), "mutate_returned": draw(st.booleans()),
             "tagger": [sorted(draw(H.TAGSET)), sorted(draw(H.TAGSET))]}
 
 
@@ -156,6 +157,13 @@ def run_case(spec):
             vs.append(V("current_tags", "%s-raises-%s" % (name, type(e).__name__),
                         "current_tags raised %r after %s" % (e, step)))
             return False
+        if spec.get("mutate_returned"):
+            # what current_tags hands out is the caller's to scribble on
+            try:
+                handed = r.current_tags
+                handed.add("scribbled-by-the-caller")
+            except Exception:
+                pass
         if got != model.current:
             vs.append(V("current_tags", "%s-after-%s" % (name, step.split("(")[0]),
                         "current_tags is %r, model says %r after %s" % (sorted(got), sorted(model.current), step)))
@@ -180,6 +188,8 @@ def run_case(spec):
                     scratch[0].clear(); scratch[0].update(op["new"])
                     scratch[1].clear(); scratch[1].update(op["gone"])
                     r.tags(scratch[0], scratch[1])
+                elif spec.get("tags_by_keyword"):
+                    r.tags(new_tags=set(op["new"]), gone_tags=set(op["gone"]))
                 else:
                     r.tags(set(op["new"]), set(op["gone"]))
                 model.change(op["new"], op["gone"])
